@@ -92,6 +92,22 @@ def strategy(tier):
 
 def enumerate_cases(tier):
     yield {"coverage": True}
+    # controlled operators with several control wires and mixed control values, mutated by swapping two control wires
+    # (same wire set, same positional values, different map): symmetric-looking comparisons are easy to get wrong here
+    bases = [{"op": "RX", "p": [0.37], "w": [0]}, {"op": "PauliZ", "p": [], "w": ["t"]}, {"op": "IsingXX", "p": [1.1], "w": [0, "t"]},
+             {"op": "QubitUnitary", "p": [{"U": [0.2, -0.4, 0.7], "n": 1}], "w": [0]}]
+    k = 0
+    for b in bases:
+        for cw, cv in ((["a", "b"], [1, 0]), (["a", "b"], [0, 1]), ([5, "b", 7], [1, 0, 0]), ([5, "b", 7], [0, 1, 1])):
+            for wrap in (None, "adjoint", "pow"):
+                a = {"op": "ctrl", "base": b, "cw": cw, "cv": cv}
+                if wrap == "adjoint":
+                    a = {"op": "adjoint", "base": a}
+                elif wrap == "pow":
+                    a = {"op": "pow", "base": a, "z": 2}
+                for force in ("control-swap", "control-value"):
+                    k += 1
+                    yield {"a": a, "site": k, "how": k, "fresh": "nw", "force": force}
 
 
 # ---------------------------------------------------------------------------------------------------
@@ -179,13 +195,13 @@ def _shift_scalar(c, d):
     return c + d
 
 
-def mutate(a, site_i, how, fresh):
+def mutate(a, site_i, how, fresh, force=None):
     """Returns (c, kind, magnitude) or None if the spec has no mutation site."""
     sites = _sites(a)
     if not sites:
         return None
     kinds = sorted({k for _, k in sites})  # pick the kind first so that rare kinds (hyperparameter, control value, ...) are not drowned by wires
-    knd = kinds[site_i % len(kinds)]
+    knd = force if force in kinds else kinds[site_i % len(kinds)]
     cands = [st_ for st_ in sites if st_[1] == knd]
     path, kind = cands[(site_i // 97) % len(cands)]
     node = _get(a, path)
@@ -438,7 +454,7 @@ def check(spec):
         if len({x, y}) != 1:
             raise Viol("twin-set", f"{how}: {{a, b}} has two elements for {a}", sig=f"{sig}:{how}", features=feats)
     # mutation
-    mut = mutate(a, spec["site"], spec["how"], spec["fresh"])
+    mut = mutate(a, spec["site"], spec["how"], spec["fresh"], spec.get("force"))
     if mut is None:
         return Result(False, labels=labels + ["mutation:none"])
     c, kind, mag = mut
